@@ -352,6 +352,36 @@ func c10Branches(r *ev.Result, base, fdir string, texts []string) int {
 		}
 	}
 	w.Stop()
+	/* (1') the script cannot be delivered: a template of several MiB and a
+	client that hangs up without reading; whatever is then reported carries
+	the callback address as data. */
+	{
+		tf := filepath.Join(base, "tmpl-huge")
+		os.WriteFile(tf, []byte("curl {{.URL}} {{.ID}}\n"+strings.Repeat("# padding padding padding padding padding padding padding padding\n", 120_000)), 0o644)
+		w, err := hworld.Start(hworld.Config{Tmplf: tf})
+		if nil != err {
+			ev.Broken("%s", err)
+		}
+		for _, t := range texts {
+			if strings.ContainsAny(t, "#& ") {
+				continue
+			}
+			if _, qerr := url.QueryUnescape(t); nil != qerr {
+				continue
+			}
+			c, err := w.Dial("")
+			if nil != err {
+				ev.Broken("%s", err)
+			}
+			c.Send(hworld.Get("/c?c2=cb"+t+".example", w.Addr))
+			c.Close() /* Gone before the first byte of the answer. */
+			ns, _ := w.WaitNotice(func(cl opshell.CLine) bool { return strings.Contains(strings.ToLower(cl.Line), "script") })
+			c10Judge(r, c10Case{Position: "script-not-delivered", Text: t}, ns, "", "")
+			n++
+		}
+		w.Stop()
+		os.Remove(tf)
+	}
 	/* (2) template missing / unparsable / failing: the error branches. */
 	for _, t := range texts {
 		if strings.ContainsAny(t, "/\x00") {
